@@ -816,19 +816,6 @@ impl Core {
         Self::make_tcp_http_codec(protocol, core_settings, io, log_id)
     }
 
-    pub(crate) fn verif_evaluate_connection_rules(
-        context: &Arc<Context>,
-        client_ip: Option<std::net::IpAddr>,
-        client_random: Option<&[u8]>,
-    ) -> Result<(), String> {
-        Self::evaluate_connection_rules(
-            context,
-            client_ip,
-            client_random,
-            &log_utils::IdChain::empty(),
-        )
-    }
-
     /// verif: run `f` on the demultiplexer in force under the read lock
     /// (the read side of `on_new_tls_connection`)
     pub(crate) fn verif_with_tls_demux<R>(&self, f: impl FnOnce(&TlsDemux) -> R) -> R {
